@@ -1,6 +1,6 @@
 (* C17 — Output exclusivity and dependency graph consistent for any registration history.
    Statements only. *)
-From Verif Require Import DepDB DepDBProofs DepDBLookup.
+From Verif Require Import DepDB DepDBProofs DepDBLookup DepDBExport.
 Open Scope N_scope.
 
 (* for every history of database operations: at most one exclusive owner per type, exclusive and
@@ -64,3 +64,14 @@ Theorem C17_lookup_exact : forall ops,
     exists i, In i (inputs_of name d) /\ i_ns i = ns /\ i_typ i = typ /\ (i_id i = None \/ i_id i = Some id).
 Proof. exact lookup_exact. Qed.
 Print Assumptions C17_lookup_exact.
+
+(* the exported graph is exactly the stored tables: an edge is exported iff it is an exclusive claim, a shared claim or
+   a stored input (with the invariants above: the graph lists exactly the accepted outputs and inputs) *)
+Theorem C17_export_exact : forall d e,
+  In e (export d) <->
+  (exists t name, In (t, name) (d_excl d) /\ e = (name, 0, 0, t, 0)) \/
+  (exists t names name, In (t, names) (d_shared d) /\ In name names /\ e = (name, 1, 0, t, 0)) \/
+  (exists name ins i, In (name, ins) (d_inputs d) /\ In i ins /\
+                      e = (name, input_edge_type (i_kind i), i_ns i, i_typ i, opt_val (i_id i))).
+Proof. exact export_exact. Qed.
+Print Assumptions C17_export_exact.
